@@ -173,7 +173,7 @@ func init() {
 	addProp(&PropSpec{
 		ID: "C04",
 		Harnesses: []HarnessSpec{
-			{Name: "VerifH_negotiate_type", Covers: []string{"negotiated", "default", "several-header-lines"}},
+			{Name: "VerifH_negotiate_type", Covers: []string{"negotiated", "default", "several-header-lines", "long-q-value"}},
 			{Name: "VerifH_negotiate_raw", Covers: []string{"done"}},
 			{Name: "VerifH_http_send", Covers: []string{"unary", "response-body", "httpbody", "unary-refused", "httpbody-refused"}},
 			{Name: "VerifH_addRule_selectors", Covers: []string{"resp-field", "resp-whole"}},
